@@ -146,9 +146,21 @@ NEEDS7 = {
  "C19": "a move text with a promotion suffix whose destination is not on a back rank (a1a2n)",
  "C20": "an en-passant capture by Black given to display_san_move",
 }
+NEEDS8 = {
+ "C03": "a null move after which an enemy piece stands alone between the new mover's king and an enemy slider (pinned set covers both colours)",
+ "C04": "is_legal of a non-king move that captures or blocks one of two checkers (double check)",
+ "C05": "get_line_rays(a, b) for aligned squares where a is not on the rim behind itself (half-line returned, asymmetric)",
+ "C11": "two boards differing in two placement features of one colour whose (piece, square) pairs share a key under a stride of 6",
+ "C12": "a parsed or built board in check from a knight and a pawn at once (not reachable by play); status / generation",
+ "C14": "null_move by a side that has a pinned piece while no enemy slider is lined up with the other king (stale pins kept)",
+ "C15": "try_play / play of a pawn move to the last rank with promotion to King",
+ "C16": "@C16@",
+ "C17": "count() on a partially consumed iterator of a pawn batch with promotion destinations",
+ "C18": "iter_subsets of the full bitboard (64 squares: the shift overflows)",
+}
 ONLY = [a for a in sys.argv[1:] if not a.startswith("--")]
 for d in sorted(os.listdir(os.path.join(HERE, "seeded"))):
-    m = re.match(r"agent([234567]?)-(C\d+)$", d)
+    m = re.match(r"agent([2345678]?)-(C\d+)$", d)
     if not m:
         continue
     if ONLY and not any(o in d for o in ONLY):
@@ -192,7 +204,7 @@ for d in sorted(os.listdir(os.path.join(HERE, "seeded"))):
     meta = {
         "breaks_property": pid,
         "written_by": "independent sub-agent given only the property text and a scratch worktree",
-        "needs_to_manifest": {1: NEEDS, 2: NEEDS2, 3: NEEDS3, 4: NEEDS4, 5: NEEDS5, 6: NEEDS6, 7: NEEDS7}[rnd].get(pid, ""),
+        "needs_to_manifest": {1: NEEDS, 2: NEEDS2, 3: NEEDS3, 4: NEEDS4, 5: NEEDS5, 6: NEEDS6, 7: NEEDS7, 8: NEEDS8}[rnd].get(pid, ""),
         "round": rnd,
         "files": ["patch.diff", "demo/", "NOTES.md"],
         "independent_confirmation": conf,
